@@ -39,6 +39,8 @@ const (
 	kTuple
 	kExt // Z returned by an external call: coerced by context
 	kNil
+	kFloat // an IEEE float, carried as an integer code; every operation on it leaves the translated code
+	kFMat  // [][]float32 field: kept outside, read and written through external calls
 )
 
 type ty struct {
@@ -47,11 +49,12 @@ type ty struct {
 	bits     int    // for sized unsigned ints
 	unsigned bool
 	elems    []ty
+	lit      string // source text of a numeric literal (expression values only)
 }
 
 func (t ty) coq() string {
 	switch t.k {
-	case kInt, kErr, kHandle, kTime, kExt, kNil:
+	case kInt, kErr, kHandle, kTime, kExt, kNil, kFloat:
 		return "Z"
 	case kBool:
 		return "bool"
@@ -75,7 +78,7 @@ func (t ty) coq() string {
 
 func (t ty) zero() string {
 	switch t.k {
-	case kInt, kErr, kTime, kExt:
+	case kInt, kErr, kTime, kExt, kFloat:
 		return "0"
 	case kHandle:
 		return "(-1)"
@@ -98,6 +101,7 @@ type structInfo struct {
 	name    string
 	fields  []field          // translated fields, in declaration order
 	dropped []string         // fields of untranslatable type
+	fmats   []string         // [][]float32 fields
 	methods map[string]*ast.FuncDecl
 	order   []string
 }
@@ -156,6 +160,10 @@ func (w *world) goType(e ast.Expr) ty {
 			return ty{k: kInt, bits: 64, unsigned: true}
 		case "bool":
 			return ty{k: kBool}
+		case "float64":
+			return ty{k: kFloat, bits: 64}
+		case "float32":
+			return ty{k: kFloat, bits: 32}
 		case "error":
 			return ty{k: kErr}
 		case "string":
@@ -176,6 +184,9 @@ func (w *world) goType(e ast.Expr) ty {
 	case *ast.ArrayType:
 		if x.Len == nil && exprString(x.Elt) == "*cptvframe.Frame" {
 			return ty{k: kHList}
+		}
+		if x.Len == nil && exprString(x.Elt) == "[]float32" {
+			return ty{k: kFMat, bits: 32}
 		}
 	case *ast.SelectorExpr:
 		switch exprString(x) {
@@ -341,7 +352,7 @@ func (f *fnTr) asBool(v val) string {
 
 func (f *fnTr) asArg(v val, src ast.Expr) string {
 	switch v.t.k {
-	case kInt, kErr, kTime, kExt:
+	case kInt, kErr, kTime, kExt, kFloat:
 		return "AInt " + v.code
 	case kBool:
 		return "ABool " + v.code
@@ -364,7 +375,7 @@ func (f *fnTr) pure(e ast.Expr, en env) bool {
 			if id, ok := x.Fun.(*ast.Ident); ok {
 				switch id.Name {
 				case "len", "int", "int64", "int32", "uint16", "uint32", "uint8", "byte", "uint64", "uint":
-					return true
+					return true // (of a float operand: made impure by the operand itself)
 				}
 			}
 			if sel, ok := x.Fun.(*ast.SelectorExpr); ok && sel.Sel.Name == "Sub" && len(x.Args) == 1 {
@@ -383,6 +394,18 @@ func (f *fnTr) pure(e ast.Expr, en env) bool {
 			}
 		case *ast.IndexExpr, *ast.SliceExpr:
 			p = false
+		case *ast.SelectorExpr:
+			if st, ok := x.X.(*ast.SelectorExpr); ok && st.Sel.Name == "Status" {
+				p = false
+			}
+		case *ast.BasicLit:
+			if x.Kind == token.FLOAT {
+				p = false
+			}
+		case *ast.Ident:
+			if b, ok := en.lookup(x.Name); ok && b.t.k == kFloat {
+				p = false // operations on floats leave the translated code
+			}
 		}
 		return p
 	})
@@ -448,7 +471,9 @@ func (f *fnTr) expr(e ast.Expr, en env, k func(val, env) string) string {
 			if err != nil {
 				fail("integer literal %s", x.Value)
 			}
-			return k(val{fmt.Sprintf("(%d)", v), ty{k: kInt}}, en)
+			return k(val{fmt.Sprintf("(%d)", v), ty{k: kInt, lit: x.Value}}, en)
+		case token.FLOAT:
+			return k(val{"0", ty{k: kNil, lit: x.Value}}, en) // only meaningful where a float is expected (toFloat)
 		case token.STRING:
 			s, err := strconv.Unquote(x.Value)
 			if err != nil {
@@ -480,6 +505,16 @@ func (f *fnTr) expr(e ast.Expr, en env, k func(val, env) string) string {
 		if c, t, ok := f.fieldPath(x, en); ok {
 			return k(val{c, t}, en)
 		}
+		// telemetry of a frame: X.Status.<Field>
+		if st, ok := x.X.(*ast.SelectorExpr); ok && st.Sel.Name == "Status" && !f.isOpaque(st.X, en) && f.translatable(st.X, en) && f.kindOf(st.X, en) == kHandle {
+			return f.expr(st.X, en, func(h val, en env) string {
+				t := f.newTmp()
+				return fmt.Sprintf("%s <- call_ext ext %s [AFrame %s] ;;\n%s", t, coqString("Frame.Status."+x.Sel.Name), h.code, k(val{t, ty{k: kInt}}, en))
+			})
+		}
+		if exprString(x) == "math.MaxFloat32" {
+			return k(val{"0", ty{k: kNil, lit: "math.MaxFloat32"}}, en)
+		}
 		if v, ok := eval(x, f.w.consts); ok { // time.Minute and the like
 			return k(val{fmt.Sprintf("(%d)", v), ty{k: kInt}}, en)
 		}
@@ -499,6 +534,9 @@ func (f *fnTr) expr(e ast.Expr, en env, k func(val, env) string) string {
 	case *ast.BinaryExpr:
 		return f.binary(x, en, k)
 	case *ast.IndexExpr:
+		if code, ok := f.index2(x, en, k); ok {
+			return code
+		}
 		return f.expr(x.X, en, func(l val, en env) string {
 			if l.t.k != kHList {
 				fail("indexing something that is not a frame slice: %s", exprString(x))
@@ -587,8 +625,35 @@ func (f *fnTr) binary(x *ast.BinaryExpr, en env, k func(val, env) string) string
 	}
 	return f.expr(x.X, en, func(a val, en env) string {
 		return f.expr(x.Y, en, func(b val, en env) string {
+			if a.t.k == kFloat || b.t.k == kFloat {
+				bits := a.t.bits
+				if a.t.k != kFloat {
+					bits = b.t.bits
+				}
+				names := map[token.Token]string{token.ADD: "add", token.SUB: "sub", token.MUL: "mul", token.QUO: "div",
+					token.LSS: "lt", token.LEQ: "le", token.GTR: "gt", token.GEQ: "ge", token.EQL: "eq", token.NEQ: "ne"}
+				nm, ok := names[op]
+				if !ok {
+					fail("float operator %s", op)
+				}
+				return f.toFloat(a, bits, en, func(a val, en env) string {
+					return f.toFloat(b, bits, en, func(b val, en env) string {
+						t := f.newTmp()
+						rt := ty{k: kFloat, bits: bits}
+						rc := t
+						switch op {
+						case token.LSS, token.LEQ, token.GTR, token.GEQ, token.EQL, token.NEQ:
+							rt, rc = ty{k: kBool}, "(z_to_bool "+t+")"
+						}
+						return fmt.Sprintf("%s <- call_ext ext %s [AInt %s; AInt %s] ;;\n%s", t, coqString(fname(bits)+"."+nm), a.code, b.code, k(val{rc, rt}, en))
+					})
+				})
+			}
 			switch op {
 			case token.ADD, token.SUB, token.MUL:
+				if op == token.ADD && (a.t.k == kStr) != (b.t.k == kStr) {
+					return k(val{"tt", ty{k: kUnknown}}, en) // string built from something outside the translation
+				}
 				if a.t.k == kStr && b.t.k == kStr && op == token.ADD {
 					return k(val{fmt.Sprintf("(%s ++ %s)%%string", a.code, b.code), ty{k: kStr}}, en)
 				}
@@ -726,9 +791,33 @@ func (f *fnTr) call(c *ast.CallExpr, en env, k func(val, env) string) string {
 	if id, ok := c.Fun.(*ast.Ident); ok {
 		if _, shadow := en.lookup(id.Name); !shadow {
 			switch id.Name {
+			case "float64", "float32":
+				bits := 64
+				if id.Name == "float32" {
+					bits = 32
+				}
+				if len(c.Args) == 1 {
+					return f.expr(c.Args[0], en, func(v val, en env) string {
+						t := f.newTmp()
+						switch {
+						case v.t.k == kInt || v.t.k == kExt:
+							return fmt.Sprintf("%s <- call_ext ext %s [AInt %s] ;;\n%s", t, coqString(fname(bits)+".of_int"), v.code, k(val{t, ty{k: kFloat, bits: bits}}, en))
+						case v.t.k == kFloat && v.t.bits == bits:
+							return k(v, en)
+						case v.t.k == kFloat:
+							return fmt.Sprintf("%s <- call_ext ext %s [AInt %s] ;;\n%s", t, coqString(fname(bits)+".of_"+fname(v.t.bits)), v.code, k(val{t, ty{k: kFloat, bits: bits}}, en))
+						}
+						fail("conversion %s", exprString(c))
+						return ""
+					})
+				}
 			case "int", "int64", "int32":
 				if len(c.Args) == 1 {
 					return f.expr(c.Args[0], en, func(v val, en env) string {
+						if v.t.k == kFloat {
+							t := f.newTmp()
+							return fmt.Sprintf("%s <- call_ext ext %s [AInt %s] ;;\n%s", t, coqString(fname(v.t.bits)+".to_int"), v.code, k(val{t, ty{k: kInt}}, en))
+						}
 						if v.t.k != kInt && v.t.k != kExt {
 							fail("conversion %s", exprString(c))
 						}
@@ -739,8 +828,17 @@ func (f *fnTr) call(c *ast.CallExpr, en env, k func(val, env) string) string {
 				bits := map[string]int{"uint16": 16, "uint32": 32, "uint8": 8, "byte": 8, "uint64": 64, "uint": 64}[id.Name]
 				if len(c.Args) == 1 {
 					return f.expr(c.Args[0], en, func(v val, en env) string {
+						if v.t.k == kFloat {
+							// Go's float -> unsigned integer conversion (truncation; out of range is implementation-defined)
+							t := f.newTmp()
+							return fmt.Sprintf("%s <- call_ext ext %s [AInt %s] ;;\n%s", t, coqString(fmt.Sprintf("%s.to_uint%d", fname(v.t.bits), bits)), v.code,
+								k(val{t, ty{k: kInt, bits: bits, unsigned: true}}, en))
+						}
 						if v.t.k != kInt && v.t.k != kExt {
 							fail("conversion %s", exprString(c))
+						}
+						if v.t.unsigned && v.t.bits > 0 && v.t.bits <= bits {
+							return k(val{v.code, ty{k: kInt, bits: bits, unsigned: true}}, en)
 						}
 						return k(val{fmt.Sprintf("(wrap_u %d %s)", bits, v.code), ty{k: kInt, bits: bits, unsigned: true}}, en)
 					})
@@ -769,6 +867,18 @@ func (f *fnTr) call(c *ast.CallExpr, en env, k func(val, env) string) string {
 					})
 				})
 			}
+		}
+		if s := exprString(c.Fun); (s == "math.Max" || s == "math.Min") && len(c.Args) == 2 {
+			return f.expr(c.Args[0], en, func(a val, en env) string {
+				return f.toFloat(a, 64, en, func(a val, en env) string {
+					return f.expr(c.Args[1], en, func(b val, en env) string {
+						return f.toFloat(b, 64, en, func(b val, en env) string {
+							t := f.newTmp()
+							return fmt.Sprintf("%s <- call_ext ext %s [AInt %s; AInt %s] ;;\n%s", t, coqString(s), a.code, b.code, k(val{t, ty{k: kFloat, bits: 64}}, en))
+						})
+					})
+				})
+			})
 		}
 		if s := exprString(c.Fun); s == "errors.New" || s == "fmt.Errorf" {
 			return k(val{"1", ty{k: kErr}}, en)
@@ -892,6 +1002,8 @@ func (f *fnTr) args(as []ast.Expr, params []ty, en env, k func([]string, env) st
 					code = "" // parameters of untranslatable type are dropped
 				} else if params[i].k == kBool {
 					code = f.asBool(v)
+				} else if params[i].k == kHandle && v.t.k == kNil {
+					code = "(-1)"
 				} else if v.t.k == kUnknown {
 					fail("argument %s has no translation", exprString(as[i]))
 				}
@@ -911,6 +1023,20 @@ func (f *fnTr) copyCall(c *ast.CallExpr, en env, k func(val, env) string) string
 		fail("copy with %d arguments", len(c.Args))
 	}
 	dst := c.Args[0]
+	// rows of pixel grids
+	if code, ok := f.pixRow(dst, en, func(dh, dy, dlo, dhi string, en env) string {
+		code, ok := f.pixRow(c.Args[1], en, func(sh, sy, slo, shi string, en env) string {
+			t := f.newTmp()
+			return fmt.Sprintf("%s <- call_ext ext \"Frame.Pix.copyrow\"%%string [AFrame %s; AInt %s; AInt %s; AInt %s; AFrame %s; AInt %s; AInt %s; AInt %s] ;;\n%s",
+				t, dh, dy, dlo, dhi, sh, sy, slo, shi, k(val{"tt", ty{k: kUnit}}, en))
+		})
+		if !ok {
+			fail("copy into a pixel row from %s", exprString(c.Args[1]))
+		}
+		return code
+	}); ok {
+		return code
+	}
 	return f.expr(c.Args[1], en, func(src val, en env) string {
 		if src.t.k != kHList {
 			fail("copy from %s", exprString(c.Args[1]))
@@ -1011,7 +1137,7 @@ func (f *fnTr) coerceResult(v val, want ty) string {
 		if v.t.k == kHList {
 			return v.code
 		}
-	case kStr, kTime, kStruct:
+	case kStr, kTime, kStruct, kFloat:
 		if v.t.k == want.k {
 			return v.code
 		}
@@ -1103,6 +1229,16 @@ func (f *fnTr) block(items []item, en env, defers []deferred) string {
 		vs := gd.Specs[0].(*ast.ValueSpec)
 		name := vs.Names[0]
 		if len(vs.Values) == 1 {
+			if vs.Type != nil {
+				if dt := f.w.goType(vs.Type); dt.k == kFloat {
+					return f.expr(vs.Values[0], en, func(v val, en env) string {
+						return f.toFloat(v, dt.bits, en, func(v val, en env) string {
+							cn := f.declName(name)
+							return fmt.Sprintf("let %s := %s in\n%s", cn, v.code, f.block(rest, en.bind(binding{goName: name.Name, coq: cn, t: dt}), defers))
+						})
+					})
+				}
+			}
 			// var x T = e  is  x := e
 			as := &ast.AssignStmt{Lhs: []ast.Expr{name}, Tok: token.DEFINE, Rhs: []ast.Expr{vs.Values[0]}}
 			return f.assign(as, rest, en, defers)
@@ -1305,6 +1441,11 @@ func (f *fnTr) assign(s *ast.AssignStmt, rest []item, en env, defers []deferred)
 				if b.t.k == kStruct {
 					fail("assignment to struct variable %s", id.Name)
 				}
+				if b.t.k == kFloat && v.t.k != kFloat {
+					return f.toFloat(v, b.t.bits, en, func(v val, en env) string {
+						return fmt.Sprintf("let %s := %s in\n%s", b.coq, v.code, f.block(rest, en, defers))
+					})
+				}
 				code := v.code
 				switch {
 				case b.t.k == kBool:
@@ -1318,10 +1459,25 @@ func (f *fnTr) assign(s *ast.AssignStmt, rest []item, en env, defers []deferred)
 				}
 				return fmt.Sprintf("let %s := %s in\n%s", b.coq, code, f.block(rest, en, defers))
 			}
+			if ie, ok := lhs.(*ast.IndexExpr); ok {
+				if code, ok := f.assign2(ie, v, en, func(en env) string { return f.block(rest, en, defers) }); ok {
+					return code
+				}
+				fail("assignment target %s", exprString(lhs))
+			}
 			if v.t.k == kUnknown || v.t.k == kUnit || v.t.k == kTuple {
 				fail("assignment of an untranslated value to %s", exprString(lhs))
 			}
 			code := v.code
+			if _, isSel := lhs.(*ast.SelectorExpr); !isSel {
+				fail("assignment target %s", exprString(lhs))
+			}
+			if _, ft, ok := f.fieldPath(lhs.(*ast.SelectorExpr), en); ok && ft.k == kFloat {
+				return f.toFloat(v, ft.bits, en, func(v val, en env) string {
+					root, term := f.setPath(lhs, v.code, en, v.t)
+					return fmt.Sprintf("let %s := %s in\n%s", root.coq, term, f.block(rest, en, defers))
+				})
+			}
 			if _, ft, ok := f.fieldPath(lhs.(*ast.SelectorExpr), en); ok && ft.k == kBool {
 				code = f.asBool(v)
 			} else if ok && ft.k == kHandle && v.t.k == kNil {
@@ -1447,6 +1603,11 @@ func assigns(body ast.Node, name string) bool {
 	found := false
 	ast.Inspect(body, func(n ast.Node) bool {
 		switch x := n.(type) {
+		case *ast.ForStmt:
+			// an inner loop that declares its own variable of the same name shadows it
+			if as, ok := x.Init.(*ast.AssignStmt); ok && as.Tok == token.DEFINE && len(as.Lhs) == 1 && isIdentNamed(as.Lhs[0], name) {
+				return false
+			}
 		case *ast.AssignStmt:
 			for _, l := range x.Lhs {
 				if id, ok := l.(*ast.Ident); ok && id.Name == name {
@@ -1525,9 +1686,24 @@ func (f *fnTr) forStmt(s *ast.ForStmt, rest []item, outer env, defers []deferred
 					bad = true
 				}
 			}
-			if id.Name == f.recv && f.recv != "" && f.recvAssigned(bodyBlock) {
+		}
+		if sel, ok := n.(*ast.SelectorExpr); ok && f.recv != "" && rootIdent(sel) == f.recv {
+			mod := f.recvModified(bodyBlock, en)
+			// the outermost field below the receiver
+			e := ast.Expr(sel)
+			name := ""
+			for {
+				if s2, ok := e.(*ast.SelectorExpr); ok {
+					name = s2.Sel.Name
+					e = s2.X
+					continue
+				}
+				break
+			}
+			if mod["*"] || mod[name] {
 				bad = true
 			}
+			return false
 		}
 		return true
 	})
@@ -1583,29 +1759,63 @@ func (f *fnTr) forStmt(s *ast.ForStmt, rest []item, outer env, defers []deferred
 		lr, loCode, hiCode, ivCoq, lamPat, indent(bodyCode), init, lr, indent(retCode), pat, indent(restCode))
 }
 
-func (f *fnTr) recvAssigned(body *ast.BlockStmt) bool {
-	found := false
+// fields of the receiver that the loop body may modify ("*" = any)
+func (f *fnTr) recvModified(body *ast.BlockStmt, en env) map[string]bool {
+	m := map[string]bool{}
+	top := func(e ast.Expr) string { // d.a.b.c -> "a"
+		name := ""
+		for {
+			switch x := e.(type) {
+			case *ast.SelectorExpr:
+				name = x.Sel.Name
+				e = x.X
+			case *ast.IndexExpr:
+				e = x.X
+			case *ast.ParenExpr:
+				e = x.X
+			case *ast.Ident:
+				if x.Name == f.recv {
+					return name
+				}
+				return ""
+			default:
+				return ""
+			}
+		}
+	}
 	ast.Inspect(body, func(n ast.Node) bool {
 		switch x := n.(type) {
 		case *ast.AssignStmt:
 			for _, l := range x.Lhs {
 				if rootIdent(l) == f.recv {
-					found = true
+					if t := top(l); t != "" {
+						m[t] = true
+					} else {
+						m["*"] = true
+					}
 				}
 			}
 		case *ast.IncDecStmt:
 			if rootIdent(x.X) == f.recv {
-				found = true
+				if t := top(x.X); t != "" {
+					m[t] = true
+				}
 			}
 		case *ast.CallExpr:
-			if sel, ok := x.Fun.(*ast.SelectorExpr); ok && rootIdent(sel.X) == f.recv {
-				found = true
+			if _, recvExpr, ok := f.resolveCall(x, en); ok && recvExpr != nil && rootIdent(recvExpr) == f.recv {
+				if t := top(recvExpr); t != "" {
+					m[t] = true // a method of a nested struct changes that field only
+				} else {
+					m["*"] = true
+				}
 			}
 		}
-		return !found
+		return true
 	})
-	return found
+	return m
 }
+
+func (f *fnTr) recvAssigned(body *ast.BlockStmt) bool { return true }
 
 func rootIdent(e ast.Expr) string {
 	for {
@@ -1745,7 +1955,10 @@ func translateUnits(repo, outdir string, units []*unit) error {
 			for _, fl := range st.Fields.List {
 				t := w.goType(fl.Type)
 				for _, n := range fl.Names {
-					if t.k == kUnknown {
+					if t.k == kFMat {
+						si.dropped = append(si.dropped, n.Name+" "+exprString(fl.Type)+" (read and written through external calls)")
+						si.fmats = append(si.fmats, n.Name)
+					} else if t.k == kUnknown {
 						si.dropped = append(si.dropped, n.Name+" "+exprString(fl.Type))
 					} else {
 						si.fields = append(si.fields, field{n.Name, t})
@@ -1918,8 +2131,160 @@ var fnUnits = []*unit{
 		skip: map[string]bool{}},
 	{name: "MotionProcessor", dir: "motion", files: []string{"motionprocessor.go", "frameloop.go"}, structs: []string{"MotionProcessor"},
 		funcs: []string{"min"}, imports: []string{"FrameLoop"}, skip: map[string]bool{}},
+	{name: "MotionDetector", dir: "motion", files: []string{"motion.go", "frameloop.go"}, structs: []string{"motionDetector"},
+		funcs: []string{"isAffectedByFFC", "absDiff", "warmerDiff"}, imports: []string{"FrameLoop"}, skip: map[string]bool{}},
 	{name: "ThrottledRecorder", dir: "throttle", files: []string{"throttled_recorder.go"}, structs: []string{"ThrottledRecorder"},
 		skip: map[string]bool{}},
 	{name: "LogLimiter", dir: "loglimiter", files: []string{"loglimiter.go"}, structs: []string{"LogLimiter"},
 		skip: map[string]bool{"LogLimiter.Printf": true}},
+}
+
+// ---------------------------------------------------------------------------------------
+// floats, pixels, frame status: all through external calls
+
+func fname(bits int) string { return fmt.Sprintf("f%d", bits) }
+
+// toFloat: a value where a float of the given width is expected: floats pass, numeric literals
+// (and math.MaxFloat32) become "fNN.lit" calls
+func (f *fnTr) toFloat(v val, bits int, en env, k func(val, env) string) string {
+	if v.t.k == kFloat {
+		return k(v, en)
+	}
+	if v.t.lit != "" {
+		t := f.newTmp()
+		return fmt.Sprintf("%s <- call_ext ext %s [AStr %s] ;;\n%s", t, coqString(fname(bits)+".lit"), coqString(v.t.lit), k(val{t, ty{k: kFloat, bits: bits}}, en))
+	}
+	fail("a float is expected here: %s", v.code)
+	return ""
+}
+
+// X.Pix where X is a frame handle: returns the handle expression
+func (f *fnTr) pixBase(e ast.Expr, en env) (ast.Expr, bool) {
+	sel, ok := e.(*ast.SelectorExpr)
+	if !ok || sel.Sel.Name != "Pix" {
+		return nil, false
+	}
+	if f.isOpaque(sel.X, en) || !f.translatable(sel.X, en) || f.kindOf(sel.X, en) != kHandle {
+		return nil, false
+	}
+	return sel.X, true
+}
+
+// a [][]float32 field of the receiver's struct: returns its path name
+func (f *fnTr) fmatBase(e ast.Expr, en env) (string, bool) {
+	sel, ok := e.(*ast.SelectorExpr)
+	if !ok {
+		return "", false
+	}
+	id, ok := sel.X.(*ast.Ident)
+	if !ok {
+		return "", false
+	}
+	b, ok := en.lookup(id.Name)
+	if !ok || b.t.k != kStruct {
+		return "", false
+	}
+	for _, n := range f.w.structs[b.t.name].fmats {
+		if n == sel.Sel.Name {
+			return b.t.name + "." + n, true
+		}
+	}
+	return "", false
+}
+
+// m[y][x] for a pixel grid or a float matrix: (is it one, generated code)
+func (f *fnTr) index2(x *ast.IndexExpr, en env, k func(val, env) string) (string, bool) {
+	inner, ok := x.X.(*ast.IndexExpr)
+	if !ok {
+		return "", false
+	}
+	if h, ok := f.pixBase(inner.X, en); ok {
+		return f.expr(h, en, func(hv val, en env) string {
+			return f.expr(inner.Index, en, func(yv val, en env) string {
+				return f.expr(x.Index, en, func(xv val, en env) string {
+					t := f.newTmp()
+					return fmt.Sprintf("%s <- call_ext ext \"Frame.Pix.get\"%%string [AFrame %s; AInt %s; AInt %s] ;;\n%s", t, hv.code, yv.code, xv.code,
+						k(val{t, ty{k: kInt, bits: 16, unsigned: true}}, en))
+				})
+			})
+		}), true
+	}
+	if name, ok := f.fmatBase(inner.X, en); ok {
+		return f.expr(inner.Index, en, func(yv val, en env) string {
+			return f.expr(x.Index, en, func(xv val, en env) string {
+				t := f.newTmp()
+				return fmt.Sprintf("%s <- call_ext ext %s [AInt %s; AInt %s] ;;\n%s", t, coqString(name+".get"), yv.code, xv.code,
+					k(val{t, ty{k: kFloat, bits: 32}}, en))
+			})
+		}), true
+	}
+	return "", false
+}
+
+// m[y][x] = v
+func (f *fnTr) assign2(lhs *ast.IndexExpr, v val, en env, cont func(env) string) (string, bool) {
+	inner, ok := lhs.X.(*ast.IndexExpr)
+	if !ok {
+		return "", false
+	}
+	if h, ok := f.pixBase(inner.X, en); ok {
+		if v.t.k != kInt && v.t.k != kExt {
+			fail("pixel assignment of a non-integer: %s", v.code)
+		}
+		return f.expr(h, en, func(hv val, en env) string {
+			return f.expr(inner.Index, en, func(yv val, en env) string {
+				return f.expr(lhs.Index, en, func(xv val, en env) string {
+					t := f.newTmp()
+					return fmt.Sprintf("%s <- call_ext ext \"Frame.Pix.set\"%%string [AFrame %s; AInt %s; AInt %s; AInt %s] ;;\n%s", t, hv.code, yv.code, xv.code, v.code, cont(en))
+				})
+			})
+		}), true
+	}
+	if name, ok := f.fmatBase(inner.X, en); ok {
+		return f.toFloat(v, 32, en, func(fv val, en env) string {
+			return f.expr(inner.Index, en, func(yv val, en env) string {
+				return f.expr(lhs.Index, en, func(xv val, en env) string {
+					t := f.newTmp()
+					return fmt.Sprintf("%s <- call_ext ext %s [AInt %s; AInt %s; AInt %s] ;;\n%s", t, coqString(name+".set"), yv.code, xv.code, fv.code, cont(en))
+				})
+			})
+		}), true
+	}
+	return "", false
+}
+
+// a row (or part of a row) of a pixel grid: X.Pix[y] or X.Pix[y][lo:hi]; hi = -1 means to the end
+func (f *fnTr) pixRow(e ast.Expr, en env, k func(h, y, lo, hi string, en env) string) (string, bool) {
+	var se *ast.SliceExpr
+	row := e
+	if s, ok := e.(*ast.SliceExpr); ok {
+		se, row = s, s.X
+	}
+	ie, ok := row.(*ast.IndexExpr)
+	if !ok {
+		return "", false
+	}
+	h, ok := f.pixBase(ie.X, en)
+	if !ok {
+		return "", false
+	}
+	return f.expr(h, en, func(hv val, en env) string {
+		return f.expr(ie.Index, en, func(yv val, en env) string {
+			lo := func(k2 func(val, env) string) string {
+				if se == nil || se.Low == nil {
+					return k2(val{"0", ty{k: kInt}}, en)
+				}
+				return f.expr(se.Low, en, k2)
+			}
+			return lo(func(lov val, en env) string {
+				hi := func(k2 func(val, env) string) string {
+					if se == nil || se.High == nil {
+						return k2(val{"(-1)", ty{k: kInt}}, en)
+					}
+					return f.expr(se.High, en, k2)
+				}
+				return hi(func(hiv val, en env) string { return k(hv.code, yv.code, lov.code, hiv.code, en) })
+			})
+		})
+	}), true
 }
